@@ -42,8 +42,11 @@ ASSUMPTIONS = [
     "requests = 5, main task failures = 7 mod 10 ms; 0 = the yield after the start loop)",
     "a probe block's own start() is below the add-ons in the MRO (it raises before AddonMainTask.start creates the "
     "main task); a probe's stop()/stop_async() runs the library part (super()) before it raises",
-    "stop_timeout > 0 on main-task blocks and larger than the time the main task needs to finish after its "
-    "cancellation; no second external cancellation of the simulation task (DESIGN.md section 6)",
+    "stop_timeout of a main-task block is 0 (known finding: its task is never cancelled) or larger than the time the main "
+    "task needs to finish after its cancellation; no direct cancellation of the simulation task or of the task that runs "
+    "edzed.run() while the clean-up is in progress (DESIGN.md section 6)",
+    "a slow cancellation of init_async that takes time (not only loop iterations) is generated only where init_async does "
+    "not run into its time-out; the destination OutputFunc of an OutputFunc's on_success has no on_success of its own",
     "OutputAsync blocks receive only their stop_data (mode 'wait'); C12 covers their running behaviour",
 ]
 EXHAUSTIVE = {'quick': False, 'thorough': False}
@@ -918,6 +921,7 @@ PRIORITY = ['stop_exactly_started', 'cleanup_error_isolated', 'async_before_sync
             'no_live_task_when_finished', 'no_live_task_at_end', 'no_pending_timer',
             'no_live_init_task', 'stop_data_last', 'event_shutdown_documented', 'no_live_helper_task']
 KNOWN_SHAPES = ('outputasync_not_initialized', 'stop_async_own_cancellederror', 'main_task_of_late_start_fault',
+                'main_task_stop_timeout_zero',
                 'outputfunc_event_after_stop')
 
 
@@ -1040,11 +1044,16 @@ def oracle_run(scn, r):
         late_start = [k for k, b in enumerate(scn['blocks']) if 'L' in b.get('flags', '') and b['kind'] == 'async'
                       and k not in started and ('start', k) in [(kind, kk) for kind, kk, _x, _t in log]]
         f6 = bool(late_start) and all(x == f'main:{late_start[0]}' for x in now_left)
+        # known finding: the asynchronous clean-up of a main-task block is disabled (stop_timeout 0): nobody cancels the task
+        sto0 = {f'main:{k}' for k, b in enumerate(scn['blocks']) if b['kind'] == 'async' and b.get('sto') == 0 and k in started}
+        f7 = bool(sto0) and set(now_left) <= sto0
         out.append({'clause': 'no_live_task_when_finished',
                     'what': f"pending at the moment {'run() returned' if scn.get('runner') == 'run' else 'the simulation task finished'}: {now_left}"
-                            + (' -- the main task of a block whose start() raised after AddonMainTask.start()' if f6 else ''),
+                            + (' -- the main task of a block whose start() raised after AddonMainTask.start()' if f6 else '')
+                            + (' -- main task of a block with stop_timeout=0 (asynchronous clean-up disabled)' if f7 else ''),
                     'sig': {'tasks': sorted({x.split(':')[0] for x in now_left}),
-                            'shape': 'main_task_of_late_start_fault' if f6 else 'other'}})
+                            'shape': 'main_task_of_late_start_fault' if f6 else
+                                     ('main_task_stop_timeout_zero' if f7 else 'other')}})
     # nothing outlives the simulation
     tasks = [x for x in r['left'] if not x.startswith(('timer:', 'handle:'))]
     if now_left:
@@ -1335,6 +1344,10 @@ def new_dimension_scenarios():
                 blocks.insert(pos, mk(kind, 's' + f + ('a' if kind == 'ainit' else '')))
                 yield finish(blocks, {'kind': 'shutdown', 'time': 205})
                 yield finish(blocks, {'kind': 'supportEnd', 'time': 205}, runner='run')
+    # main-task block whose asynchronous clean-up is disabled by stop_timeout=0
+    for kind, run in (('shutdown', None), ('abort', None), ('supportEnd', 'run'), ('sigterm', 'run')):
+        yield finish([mk('async', 's', sto=0), mk('sync', 's'), mk('async', 's')], {'kind': kind, 'time': 205}, runner=run)
+        yield finish([mk('async', 's', sto=0)], {'kind': kind, 'time': 205}, runner=run)
     # (g) supporting coroutines that need further loop iterations once cancelled, before and after the one that ends/fails
     for k1 in ('supportEnd', 'supportFail', 'abort', 'shutdown', 'sigterm'):
         for ck in (1, 3, 6):
@@ -1382,6 +1395,8 @@ def random_scenario(rng):
                 b['sdur'] = 0
                 b['cdur'] = rng.choice([0, 2, 4])
             b['sto'] = rng.choice([33, 53, 83, 123, 253])
+            if rng.random() < 0.05:
+                b['sto'] = 0        # asynchronous clean-up disabled (docs: "Value 0.0 or negative disables the async cleanup")
             if rng.random() < 0.15:
                 b['mf'] = mf_pool.pop(rng.randrange(len(mf_pool)))     # pairwise distinct
                 b['mret'] = rng.random() < 0.4
